@@ -160,7 +160,11 @@ def compare(cx, actual, expected, label, seen=None, kind="post"):
         try:
             av = actual.at(*idx)
             ev = expected.at(*idx)
-            cx.oblige(f"{label}[{','.join(str(i) for i in idx)}] equals specification", V.s_cmp("==", av, ev), kind=kind)
+            guard = getattr(expected, "cmp_guard", None)  # the specification speaks of these elements only
+            eq = V.s_cmp("==", av, ev)
+            if guard is not None:
+                eq = z3.Implies(V.to_z3(guard(*idx)), V.to_z3(eq))
+            cx.oblige(f"{label}[{','.join(str(i) for i in idx)}] equals specification" + (f" ({expected.cmp_guard_text})" if guard is not None else ""), eq, kind=kind)
         finally:
             del cx.pc[n0:]
         return
@@ -361,6 +365,7 @@ def _run_unit(spec: Spec, repo: Repo | None = None, timeout_s=20.0, want_smt2=Fa
                 outcome = ("return", r)
             except PyRaise as e:
                 outcome = ("raise", e.cls, e.pargs)
+                cx.ghost["raise_explicit"] = bool(getattr(e, "explicit", False))
             res.outcomes.append(outcome[0] if outcome[0] == "return" else f"raise {outcome[1]}")
             _post(spec, cx, a, b, outcome)
         except PathInfeasible:
@@ -428,6 +433,13 @@ def _post(spec: Spec, cx, a, b, outcome):
     rz = spec.raises(cx, a)
     if outcome[0] == "raise":
         cls = outcome[1]
+        if cls != "SystemExit" and cx.ghost.get("raise_explicit") and cls not in ("AssertionError", "NotImplementedError", "StopIteration") and (
+            "SystemExit" in spec.may_raise or any(c == "SystemExit" for _c, c in rz)
+        ):
+            # where the contract speaks of a refusal (SystemExit, the repository's convention) any exception raised by an
+            # explicit raise statement is one: the properties say "stops with an error", not which class
+            cx.notes.append(f"a deliberate `raise {cls}` is counted as a refusal (the contract names SystemExit)")
+            cls = "SystemExit"
         if cls in spec.may_raise:
             cx.oblige(f"raises {cls}: allowed by the contract", True, kind="post")
             return
@@ -483,6 +495,10 @@ def run_lemma(lemma: Lemma, timeout_s=20.0, want_smt2=False) -> UnitResult:
     TRANSC_APPS.clear()
     try:
         items = lemma.formula()
+    except Unsupported as e:  # the lemma cannot read the code it speaks about: undecided, not refuted
+        res.unsupported = str(e)
+        res.paths = 1
+        return res
     except Exception as e:  # noqa: BLE001
         res.error = f"{type(e).__name__}: {e}\n{traceback.format_exc()[-1200:]}"
         return res
